@@ -18,6 +18,7 @@ package fastq
 //@   let d0 := old(r.s.done)
 //@   ensures result.1 == nil <==> result.0 != nil
 //@   ensures result.1 == nil ==> !d0 && p0 + 4 <= S.n && S.pos == p0 + 4
+//@   ensures result.1 == nil ==> !S.done
 //@   ensures result.1 == nil ==> len(S.lines[p0]) > 0 && S.lines[p0][0] == '@'
 //@   ensures result.1 == nil ==> len(S.lines[p0+2]) > 0 && S.lines[p0+2][0] == '+'
 //@   ensures result.1 == nil ==> len(S.lines[p0+3]) == len(S.lines[p0+1])
@@ -41,11 +42,24 @@ package fastq
 //@   ensures forall t int :: 0 <= t && t < len(Y) ==> (Y[t].1 != nil <==> Y[t].0 == nil)
 //@   ensures forall t int :: 0 <= t && t < len(Y) ==> Y[t].1 != 1
 //@   ensures !stopped && r.s.fault ==> len(Y) > 0 && Y[len(Y)-1].1 != nil
+// content (C02): item t is the record of lines P+4t .. P+4t+3 (P: the line the scanner stands at); an error item stands
+// for four lines that are not a well-formed record; an unstopped run ends with an error item or at the last line
+//@   let P := old(r.s.pos)
+//@   let LN := r.s.lines
+//@   let N := r.s.n
+//@   ensures @C02 forall t int :: {Y[t].1} 0 <= t && t < len(Y) && Y[t].1 == nil ==> P + 4*t + 4 <= N && len(Y[t].0.Name) == len(LN[P+4*t]) - 1 && (forall j int :: 0 <= j && j < len(Y[t].0.Name) ==> Y[t].0.Name[j] == LN[P+4*t][j+1]) && len(Y[t].0.Sequence) == len(LN[P+4*t+1]) && (forall j int :: 0 <= j && j < len(Y[t].0.Sequence) ==> Y[t].0.Sequence[j] == LN[P+4*t+1][j]) && len(Y[t].0.Quals) == len(LN[P+4*t+3]) && (forall j int :: 0 <= j && j < len(Y[t].0.Quals) ==> Y[t].0.Quals[j] == LN[P+4*t+3][j])
+//@   ensures @C02 forall t int :: {Y[t].1} 0 <= t && t < len(Y) && Y[t].1 != nil && !old(r.s.done) ==> !(P+4*t + 4 <= N && len(LN[P+4*t]) > 0 && LN[P+4*t][0] == '@' && len(LN[P+4*t+2]) > 0 && LN[P+4*t+2][0] == '+' && len(LN[P+4*t+3]) == len(LN[P+4*t+1]))
+//@   ensures @C02 !stopped && !old(r.s.done) && (len(Y) == 0 || Y[len(Y)-1].1 == nil) ==> P + 4*len(Y) == N
+//@   ensures @C02 forall t int :: {Y[t].1} 0 <= t && t < len(Y) && Y[t].1 != nil && !old(r.s.done) && !r.s.fault ==> P + 4*t < N
 //@   loop 1
 //@     invariant r != nil
 //@     invariant forall t int :: 0 <= t && t < len(Y) ==> Y[t].1 == nil && Y[t].0 != nil
 //@     invariant r.s.pos <= r.s.n
+//@     invariant @C02 len(Y) == IT && r.s.pos == P + 4*IT && (IT > 0 ==> !old(r.s.done)) && (IT == 0 ==> r.s.done == old(r.s.done))
+//@     invariant @C02 IT > 0 ==> !r.s.done
+//@     invariant @C02 forall t int :: {Y[t].1} 0 <= t && t < len(Y) ==> Y[t].1 == nil && P + 4*t + 4 <= N && len(Y[t].0.Name) == len(LN[P+4*t]) - 1 && (forall j int :: 0 <= j && j < len(Y[t].0.Name) ==> Y[t].0.Name[j] == LN[P+4*t][j+1]) && len(Y[t].0.Sequence) == len(LN[P+4*t+1]) && (forall j int :: 0 <= j && j < len(Y[t].0.Sequence) ==> Y[t].0.Sequence[j] == LN[P+4*t+1][j]) && len(Y[t].0.Quals) == len(LN[P+4*t+3]) && (forall j int :: 0 <= j && j < len(Y[t].0.Quals) ==> Y[t].0.Quals[j] == LN[P+4*t+3][j])
 //@     decreases r.s.n - r.s.pos
+//@     splitvar t == IT - 1
 
 //@ func Reader
 //@   props C06 C07 C18
@@ -54,6 +68,15 @@ package fastq
 //@   ensures forall t int :: 0 <= t && t < len(Y) ==> (Y[t].1 != nil <==> Y[t].0 == nil)
 //@   ensures-notrace !stopped ==> len(Y) == len(Z)
 //@   ensures-notrace len(Y) <= len(Z) && forall t int :: 0 <= t && t < len(Y) ==> same(Y[t], Z[t])
+// content (C02), in terms of the line sequence of a Scanner over r (scanlines/scann: the ScanLines split of the bytes r
+// delivers): item t is the record of lines 4t .. 4t+3; an error item stands for four lines that are not a well-formed
+// record; an unstopped run ends with an error item or after the last line
+//@   let LN := scanlines(r)
+//@   let N := scann(r)
+//@   ensures @C02 forall t int :: {Y[t].1} 0 <= t && t < len(Y) && Y[t].1 == nil ==> 4*t + 4 <= N && len(Y[t].0.Name) == len(LN[4*t]) - 1 && (forall j int :: 0 <= j && j < len(Y[t].0.Name) ==> Y[t].0.Name[j] == LN[4*t][j+1]) && len(Y[t].0.Sequence) == len(LN[4*t+1]) && (forall j int :: 0 <= j && j < len(Y[t].0.Sequence) ==> Y[t].0.Sequence[j] == LN[4*t+1][j]) && len(Y[t].0.Quals) == len(LN[4*t+3]) && (forall j int :: 0 <= j && j < len(Y[t].0.Quals) ==> Y[t].0.Quals[j] == LN[4*t+3][j])
+//@   ensures @C02 forall t int :: {Y[t].1} 0 <= t && t < len(Y) && Y[t].1 != nil ==> !(4*t + 4 <= N && len(LN[4*t]) > 0 && LN[4*t][0] == '@' && len(LN[4*t+2]) > 0 && LN[4*t+2][0] == '+' && len(LN[4*t+3]) == len(LN[4*t+1]))
+//@   ensures @C02 !stopped && (len(Y) == 0 || Y[len(Y)-1].1 == nil) ==> 4*len(Y) == N
+//@   ensures @C02 forall t int :: {Y[t].1} 0 <= t && t < len(Y) && Y[t].1 != nil && !readerfault(r) ==> 4*t < N
 //@   loop 1
 //@     invariant len(Y) == K && forall t int :: 0 <= t && t < K ==> same(Y[t], Z[t])
 
